@@ -108,6 +108,7 @@ class Outcome:
     self.witnesses = 0
     self.cpu_s = 0.0
     self.per_cond = {}
+    self.class_hits = {}      # known-finding classes hit inside conditions (cond.known_hit)
 
 
 def process_job(job, known, out, prop, log):
@@ -119,6 +120,8 @@ def process_job(job, known, out, prop, log):
     out.paths += res.get('paths', 0)
     out.reached += sum(res.get('reached', {}).values())
     out.cpu_s += res.get('wall_s', 0)
+    for k, n_ in (res.get('known_hits') or {}).items():
+      out.class_hits[k] = out.class_hits.get(k, 0) + n_
     pc = out.per_cond.setdefault(job['cond'], {'jobs': 0, 'paths': 0, 'reached': 0, 'wall_s': 0.0, 'verdicts': {}})
     pc['jobs'] += 1; pc['paths'] += res.get('paths', 0); pc['wall_s'] = round(pc['wall_s'] + res.get('wall_s', 0), 2)
     pc['reached'] += sum(res.get('reached', {}).values())
